@@ -1071,23 +1071,56 @@ impl_cts_ecb!(EcbCs1);
 impl_cts_ecb!(EcbCs2);
 impl_cts_ecb!(EcbCs3);
 
+// `Debug` text of a type that may or may not implement `Debug` (the `cts` types do not, at the pinned commit): resolved by
+// method probing at a call site where the type is concrete — `Wrap<T>: ViaDebug` needs `T: Debug` and is found first
+// (by value on `&Wrap<T>`), otherwise the auto-ref'd fallback answers.
+pub struct DbgWrap<'a, T>(pub &'a T);
+pub trait ViaDebug {
+    fn dbg_text(&self) -> String;
+}
+impl<T: core::fmt::Debug> ViaDebug for DbgWrap<'_, T> {
+    fn dbg_text(&self) -> String {
+        format!("{:?}", self.0)
+    }
+}
+pub trait ViaNoDebug {
+    fn dbg_text(&self) -> String;
+}
+impl<T> ViaNoDebug for &DbgWrap<'_, T> {
+    fn dbg_text(&self) -> String {
+        "<no Debug impl>".into()
+    }
+}
+#[macro_export]
+macro_rules! maybe_debug {
+    ($e:expr) => {{
+        #[allow(unused_imports)]
+        use $crate::objs::{ViaDebug, ViaNoDebug};
+        (&$crate::objs::DbgWrap(&$e)).dbg_text()
+    }};
+}
+
+pub type DbgFn = fn(&[u8], &[u8]) -> String;
+
 pub struct CtsObj<K: CtsKind> {
     key: Vec<u8>,
     iv: Vec<u8>,
     use_clone: bool,
+    dbg: Option<DbgFn>,
     _p: core::marker::PhantomData<K>,
 }
 
 impl<K: CtsKind> CtsObj<K> {
-    pub fn new(key: &[u8], iv: &[u8]) -> Box<dyn Obj> {
-        Box::new(Self { key: key.to_vec(), iv: iv.to_vec(), use_clone: false, _p: core::marker::PhantomData })
+    /// `dbg` constructs the mode object from (key, iv) and formats it with `{:?}` if the type implements `Debug`
+    pub fn new_dbg(key: &[u8], iv: &[u8], dbg: DbgFn) -> Box<dyn Obj> {
+        Box::new(Self { key: key.to_vec(), iv: iv.to_vec(), use_clone: false, dbg: Some(dbg), _p: core::marker::PhantomData })
     }
 }
 
 impl<K: CtsKind> Obj for CtsObj<K> {
     fn boxed_clone(&self) -> Option<Box<dyn Obj>> {
         // the next `enc` goes through a real `Clone::clone` of the mode object
-        Some(Box::new(Self { key: self.key.clone(), iv: self.iv.clone(), use_clone: true, _p: core::marker::PhantomData }))
+        Some(Box::new(Self { key: self.key.clone(), iv: self.iv.clone(), use_clone: true, dbg: self.dbg, _p: core::marker::PhantomData }))
     }
     fn as_any(&self) -> &dyn core::any::Any {
         self
@@ -1137,6 +1170,10 @@ impl<K: CtsKind> Obj for CtsObj<K> {
                 let (Ok(k), Ok(i)) = (kl.parse::<usize>(), il.parse::<usize>()) else { return bad() };
                 line(if K::new_slices(&vec![0x5au8; k], &vec![0xa5u8; i]) { "ok".into() } else { "err".into() })
             }
+            ["debug"] => match self.dbg {
+                Some(f) => line(format!("text {}", f(&self.key, &self.iv))),
+                None => bad(),
+            },
             _ => bad(),
         }
     }
